@@ -314,8 +314,21 @@ func (c14Checker) Run(tp *Tapes, opt RunOpt) *Outcome {
 			}
 			seenK[k] = true
 			plan := []FaultSpec{{Site: KCallback, Task: -1, Op: -1, Occ: k - 1, Fault: FExecPanic, Disk: -1}}
-			for _, ep := range []int{EpExecuteWriter, EpExecuteWriterUnbuffered} {
+			var prs []*ExecResult
+			for _, ep := range eps {
 				r, _ := run(ep, cd, plan)
+				prs = append(prs, r)
+			}
+			for _, r := range prs[1:] {
+				// "fail in the same cases": an entry point that reports success (with a truncated
+				// document) where the others die is not the same case
+				if r.Failed() != prs[0].Failed() {
+					viol("variants_disagree", "exec_panic_at fail/succeed", "entry points disagree on failing when caller code panics during the execution", nil, obs(prs))
+					break
+				}
+			}
+			for _, r := range prs[2:] {
+				ep := r.Ep
 				out.probe("exec_panic_fired")
 				if !r.Failed() {
 					continue
